@@ -317,7 +317,7 @@ class GeoPolygon(PolygonBase, SimpleShapeMixin):
         return s_holes == o_holes
 
     def __hash__(self):
-        return hash((tuple(self.outline), self.dt))
+        return hash((frozenset(self.outline), self.dt))
 
     def __repr__(self):
         return f'<GeoPolygon of {len(self.outline) - 1} coordinates>'
@@ -678,6 +678,7 @@ class GeoBox(PolygonBase):
             self.nw_bound == other.nw_bound
             and self.se_bound == other.se_bound
             and self.dt == other.dt
+            and self.holes == other.holes
         )
 
     def __hash__(self):
@@ -823,6 +824,7 @@ class GeoCircle(PolygonBase):
             self.center == other.center
             and self.radius == other.radius
             and self.dt == other.dt
+            and self.holes == other.holes
         )
 
     def __hash__(self) -> int:
@@ -933,6 +935,7 @@ class GeoEllipse(PolygonBase):
             and self.semi_minor == other.semi_minor
             and self.rotation == other.rotation
             and self.dt == other.dt
+            and self.holes == other.holes
         )
 
     def __hash__(self) -> int:
@@ -1174,6 +1177,7 @@ class GeoRing(PolygonBase):
             and self.angle_min == other.angle_min
             and self.angle_max == other.angle_max
             and self.dt == other.dt
+            and self.holes == other.holes
         )
 
     def __hash__(self) -> int:
